@@ -1,0 +1,49 @@
+//go:build verif
+
+package types
+
+// Contracts for the govc verifier (/verif/DESIGN.md). Comment-only: nothing in this file is
+// compiled into the package; the build tag keeps it out of ordinary builds altogether.
+//
+// The versioned-key theory. A key is well formed (wf) when it contains '@'; uk is the user-key
+// part before the last '@', ts the version after it. They are defined from the byte-level
+// specification functions of strings.LastIndex / strconv.ParseUint, so the contracts below are
+// proved against the real bodies for every byte string.
+//
+//@ smt (define-fun wf ((s Str)) Bool (>= (lastat s) 0))
+//@ smt (define-fun uk ((s Str)) Str (sslice s 0 (lastat s)))
+//@ smt (define-fun vtail ((s Str)) Str (sslice s (+ (lastat s) 1) (slen s)))
+//@ smt (define-fun ts ((s Str)) Int (ite (isuint (vtail s)) (parseuint (vtail s)) 0))
+//@ smt (define-fun cmp ((a Str) (b Str)) Int (ite (not (= (strcmp (uk a) (uk b)) 0)) (strcmp (uk a) (uk b)) (ite (< (ts a) (ts b)) 1 (ite (> (ts a) (ts b)) (- 1) 0))))
+//@ smt (define-fun mk ((k Str) (t Int)) Str (scat (scat k str_at) (fmtuint t)))
+//
+//@ func types.ParseKey -> r
+//@ props C10 C17 C09 C16 C01
+//@ requires wf(key)
+//@ ensures r == uk(key)
+//
+//@ func types.ParseTs -> r
+//@ props C10 C17 C09 C01
+//@ ensures r == ts(key)
+//
+//@ func types.CompareKeys -> r
+//@ props C10 C17 C09 C01
+//@ requires wf(key1) && wf(key2)
+//@ ensures r == cmp(key1, key2)
+//
+//@ func types.IsSameKey -> r
+//@ props C01 C05 C10
+//@ requires wf(key1) && wf(key2)
+//@ ensures r == (uk(key1) == uk(key2))
+//
+//@ func types.KeyWithTs -> r
+//@ props C01 C05 C10
+//@ ensures r == mk(key, ts)
+//
+// The byte-level round trip of versioned keys: for every user key (any bytes, '@' included) and
+// every version, the key built by KeyWithTs is well formed and parses back to (key, version).
+//@ lemma mk_at props C01 C05 C10 C17: forall(Str(k), Int(t), (0 <= t && t <= 18446744073709551615) ==> (mk(k, t)[len(k)] == 64 && len(mk(k, t)) == len(k) + 1 + len(fmtuint(t))), trig(mk(k, t)))
+//@ lemma mk_lastat props C01 C05 C10 C17: forall(Str(k), Int(t), (0 <= t && t <= 18446744073709551615) ==> lastat(mk(k, t)) == len(k), trig(mk(k, t)))
+//@ lemma mk_uk props C01 C05 C10 C17: forall(Str(k), Int(t), (0 <= t && t <= 18446744073709551615) ==> str_eq(uk(mk(k, t)), k), trig(mk(k, t)))
+//@ lemma mk_tail props C01 C05 C10 C17: forall(Str(k), Int(t), (0 <= t && t <= 18446744073709551615) ==> str_eq(vtail(mk(k, t)), fmtuint(t)), trig(mk(k, t)))
+//@ lemma mk_roundtrip props C01 C05 C10 C17: forall(Str(k), Int(t), (0 <= t && t <= 18446744073709551615) ==> (wf(mk(k, t)) && uk(mk(k, t)) == k && ts(mk(k, t)) == t), trig(mk(k, t)))
